@@ -1,0 +1,70 @@
+//! Verification hooks. Compiled only with `--cfg jubako_verif`.
+//!
+//! Thin public wrappers around crate-private functions so that an external
+//! harness can drive them. Nothing here changes the behaviour of the library.
+
+use crate::bases::*;
+use crate::reader::ByteRegion;
+use std::sync::Arc;
+
+/// A `Reader` over an in-memory buffer.
+pub fn reader_from_vec(data: Vec<u8>) -> Reader {
+    data.into()
+}
+
+/// A `Reader` over a file.
+pub fn reader_from_file(path: &std::path::Path) -> std::io::Result<Reader> {
+    Ok(FileSource::open(path)?.into())
+}
+
+/// `Reader::cut` (crate-private): sub reader, moved to memory (buffer or mmap) if `in_memory`.
+pub fn reader_cut(reader: &Reader, offset: u64, size: u64, in_memory: bool) -> Result<Reader> {
+    reader.cut(Offset::new(offset), Size::new(size), in_memory)
+}
+
+/// `Reader::get_byte_slice(..).into()`: a `ByteRegion` on a sub range of the reader.
+pub fn reader_region(reader: &Reader, offset: u64, size: u64) -> ByteRegion {
+    reader
+        .get_byte_slice(Offset::new(offset), Size::new(size))
+        .into()
+}
+
+/// A `Reader` whose source is a background decoder (as used for compressed clusters).
+/// `algo`: 1 = lz4, 2 = lzma, 3 = zstd. `compressed` is the compressed stream.
+pub fn reader_from_decoder(algo: u8, compressed: Vec<u8>, data_size: usize) -> Result<Reader> {
+    let stream = std::io::Cursor::new(compressed);
+    let source: Arc<dyn Source> = match algo {
+        #[cfg(feature = "lz4")]
+        1 => Arc::new(SeekableDecoder::new(
+            lz4::Decoder::new(stream)?,
+            data_size.into(),
+        )),
+        #[cfg(feature = "lzma")]
+        2 => Arc::new(SeekableDecoder::new(
+            xz2::read::XzDecoder::new_stream(
+                stream,
+                xz2::stream::Stream::new_lzma_decoder(128 * 1024 * 1024)?,
+            ),
+            data_size.into(),
+        )),
+        #[cfg(feature = "zstd")]
+        3 => Arc::new(SeekableDecoder::new(
+            zstd::Decoder::new(stream)?,
+            data_size.into(),
+        )),
+        _ => return Err(format_error!("verif_api: unsupported algo")),
+    };
+    Ok(Reader::new_from_arc(source, Size::new(data_size as u64)))
+}
+
+/// `needed_bytes` (crate-private).
+pub fn needed_bytes(v: u64) -> usize {
+    crate::bases::needed_bytes(v) as usize
+}
+
+/// CRC-32 of a data block as computed for block checks.
+pub fn crc32(data: &[u8]) -> u32 {
+    let mut digest = CRC.digest();
+    digest.update(data);
+    digest.finalize()
+}
